@@ -7,7 +7,7 @@ Each feasible value of k is one CrossHair path through the *real* writer, codec,
 import random
 from typing import Optional
 
-from vk.prelude import h, tick, tiered, concrete_arrays, notrace
+from vk.prelude import h, tick, tiered, concrete_arrays, notrace, sym_true
 from vk.fixtures import (Crash, Ctl, OpFileStorage, OpRamStorage, restore, cleanup, dump, base_schema,
                          segment_files_ok)
 from whoosh import fields, writing
@@ -17,7 +17,7 @@ concrete_arrays()
 
 
 # ------------------------------------------------------------------ pre-state: 2 segments, one deletion
-def _build_pre():
+def _build_pre(gen_target=None):
     random.seed(0)
     st = RamStorage()
     ix = st.create_index(base_schema())
@@ -33,6 +33,9 @@ def _build_pre():
     w.delete_by_term("k", u"b")
     w.commit(merge=False)
     assert len(ix._read_toc().segments) == 2
+    while gen_target is not None and ix.latest_generation() < gen_target:
+        # empty commits only advance the generation number
+        ix.writer().commit(merge=False)
     return dict((k, bytes(v)) for k, v in st.files.items()), dump(ix)
 
 
@@ -118,14 +121,19 @@ TXNS = dict(add=t_add, add_delete=t_add_delete, update=t_update, delete_only=t_d
             nomerge=t_nomerge, clear=t_clear, addfield=t_addfield, removefield=t_removefield, cancel=t_cancel,
             with_exc=t_with_exc)
 
+LATER = ["adds a document", "empty commit", "deletions only"]
 PRE, OLD = _build_pre()
+# the same content at generation 9, so that the transaction's commit writes generation 10 (two TOC files whose numbers
+# differ in length coexist between the rename and clean_files)
+PRE9, OLD9 = _build_pre(9)
+assert OLD9 == OLD
 _CACHE = {}
 LASTCTL = None
 
 
-def _uncrashed(txn, kind, compound, write_ticks=False):
+def _uncrashed(txn, kind, compound, write_ticks=False, gen9=False):
     """Warm-up run without crash: the op count N_T, the op trace and the 'new' dump."""
-    key = (txn, kind, compound, write_ticks)
+    key = (txn, kind, compound, write_ticks, gen9)
     if key not in _CACHE:
         random.seed(1)
         tmp = []
@@ -133,7 +141,7 @@ def _uncrashed(txn, kind, compound, write_ticks=False):
             ctl = Ctl()
             ctl.write_ticks = write_ticks
             ctl.enabled = False
-            st = restore(kind, PRE, ctl, tmp)
+            st = restore(kind, PRE9 if gen9 else PRE, ctl, tmp)
             ix = st.open_index()
             ctl.enabled = True
             TXNS[txn](ix, compound)
@@ -157,8 +165,8 @@ def _strip(d, key):
     return (cnt - (len(docs) - len(docs2)), docs2, tuple(lex2))
 
 
-def run_crash(txn, kind, compound, k, cut, write_ticks=False):
-    ntx, trace, new = _uncrashed(txn, kind, compound, write_ticks)
+def run_crash(txn, kind, compound, k, cut, write_ticks=False, later=0, gen9=False):
+    ntx, trace, new = _uncrashed(txn, kind, compound, write_ticks, gen9)
     random.seed(1)
     tmp = []
     try:
@@ -167,7 +175,7 @@ def run_crash(txn, kind, compound, k, cut, write_ticks=False):
         LASTCTL = ctl
         ctl.write_ticks = write_ticks
         ctl.enabled = False
-        st = restore(kind, PRE, ctl, tmp)
+        st = restore(kind, PRE9 if gen9 else PRE, ctl, tmp)
         ix = st.open_index()
         ctl.enabled = True
         crashed = False
@@ -200,15 +208,25 @@ def run_crash(txn, kind, compound, k, cut, write_ticks=False):
             return "uncrashed run differs from warm-up"
         if d != OLD and d != new:
             return "state after crash at %s is neither old nor new: %r" % (where, d[:2])
+        # the later writer: adds a document / commits nothing / only deletes (the clean-up of orphans must not depend on it)
         try:
             w = ix2.writer(timeout=0)
-            w.add_document(k=u"zz", n=7)
+            if later == 0:
+                w.add_document(k=u"zz", n=7)
+            elif later == 2:
+                w.delete_by_term("k", u"d")
             w.commit()
         except Exception as e:  # noqa
-            return "a later writer could not commit after crash at %s: %s: %s" % (where, type(e).__name__, e)
+            return "a later writer (%s) could not commit after crash at %s: %s: %s" % (LATER[later], where, type(e).__name__, e)
         d2 = dump(ix2)
-        if _strip(d2, u"zz") != d or d2[0] != d[0] + 1:
-            return "later commit lost or changed documents after crash at %s" % where
+        if later == 0:
+            ok = _strip(d2, u"zz") == d and d2[0] == d[0] + 1
+        elif later == 1:
+            ok = d2 == d
+        else:
+            ok = d2 == _strip(d, u"d")
+        if not ok:
+            return "later commit (%s) lost or changed documents after crash at %s" % (LATER[later], where)
         problems = segment_files_ok(rs, ix2)
         if problems:
             return "after the next commit following crash at %s: %s" % (where, problems)
@@ -219,28 +237,33 @@ def run_crash(txn, kind, compound, k, cut, write_ticks=False):
         cleanup(tmp)
 
 
-def _mk(txn, kind, compound, tiers, write_ticks=False):
-    name = "c02_crash_%s_%s_%s%s" % (txn, kind, "cmp" if compound else "loose", "_w" if write_ticks else "")
+def _mk(txn, kind, compound, tiers, write_ticks=False, gen9=False):
+    name = "c02_crash_%s%s_%s_%s%s" % ("gen10_" if gen9 else "", txn, kind, "cmp" if compound else "loose", "_w" if write_ticks else "")
 
     @h(bounds="transaction '%s' on %s storage, compound=%s: crash instead of storage operation k for every operation the transaction issues (k beyond the last = no crash; "
               "number of operations = paths/3 in the evidence); files open at the crash keep nothing/half/all of their bytes (cut); "
-              "ticks at create/open/close/rename/delete/list/lock%s" % (txn, kind, compound, " and before every write() to a created file" if write_ticks else ""),
+              "ticks at create/open/close/rename/delete/list/lock%s; the later writer %s%s" % (txn, kind, compound, " and before every write() to a created file" if write_ticks else "",
+              "adds a document" if write_ticks else "adds a document / commits nothing / only deletes (symbolic)", "; pre-state at generation 9 (the commit writes generation 10)" if gen9 else ""),
        funcs=["whoosh.writing.SegmentWriter.commit", "whoosh.writing.SegmentWriter.cancel", "whoosh.index.TOC.write", "whoosh.index.TOC.read",
               "whoosh.index.clean_files", "whoosh.filedb.filestore.FileStorage" if kind == "file" else "whoosh.filedb.filestore.RamStorage",
               "whoosh.codec.whoosh3.W3Codec", "whoosh.filedb.compound.CompoundStorage"],
-       examples=[dict(k=10000, cut=2), dict(k=7, cut=1)],
+       examples=[dict(k=10000, cut=2, later=0), dict(k=7, cut=1, later=0)],
        outside="power loss with write re-ordering (no fsync), crashes inside one OS call, MpWriter sub-processes, Windows delete semantics",
        stubs=["OS process death = every later storage operation fails, open descriptors are closed; rename is atomic",
               "RamStorage files that are still open are materialised with the chosen prefix (at least as hostile as a directory)"],
        timeout=dict(quick=400, thorough=1500), path_timeout=dict(quick=60, thorough=120), tiers=tiers)
-    def harness(k: int, cut: int) -> Optional[str]:
+    def harness(k: int, cut: int, later: int) -> Optional[str]:
         """
         pre: 1 <= k <= 10000
-        pre: 0 <= cut <= 2
+        pre: 0 <= cut <= 2 and 0 <= later <= NLATER
         post: _ is None
         """
         with notrace():
-            return run_crash(txn, kind, compound, k, cut, write_ticks)
+            lv = 0
+            if NLATER:
+                lv = 0 if sym_true(lambda: later == 0) else (1 if sym_true(lambda: later == 1) else 2)
+            return run_crash(txn, kind, compound, k, cut, write_ticks, lv, gen9)
+    NLATER = 0 if write_ticks else 2       # the write-tick variants keep the adding later writer only
     harness.__name__ = harness.__qualname__ = name
     return name, harness
 
@@ -255,3 +278,7 @@ for _t in sorted(TXNS):
                 _q = (not _wt) or (_t, _kind, _c) in (("add_delete", "ram", True), ("optimize", "file", False))
                 _n, _f = _mk(_t, _kind, _c, ("quick", "thorough") if _q else ("thorough",), _wt)
                 globals()[_n] = _f
+
+for _t in ("add", "optimize", "delete_only"):
+    _n, _f = _mk(_t, "file", True, ("quick", "thorough"), False, True)
+    globals()[_n] = _f
